@@ -23,7 +23,7 @@ func Main() {
 		// reports the interleavings that occurred (reports are keyed by the pair of innermost go-kardia frames)
 		dir, _ := os.MkdirTemp("", "verifrace")
 		defer os.RemoveAll(dir)
-		r.Cases("live", 12, core.Opts{Procs: 6, StallSec: 400, Race: true, Env: []string{"GORACE=halt_on_error=0 log_path=" + dir + "/race"}}, func(c *core.Case) { netsim.LiveCase(c, "C03") })
+		r.Cases("live", 12, core.Opts{Procs: 4, StallSec: 1500, Race: true, InconclusiveFatal: []string{"lib/p2p.Connect2Switches"}, Env: []string{"GORACE=halt_on_error=0 exitcode=0 log_path=" + dir + "/race"}}, func(c *core.Case) { netsim.LiveCase(c, "C03") })
 		if !r.IsChild() {
 			keys, reports := netsim.RaceKeys(dir + "/race")
 			r.Extra("race_reports", reports)
